@@ -493,6 +493,13 @@ Qed.
 
 (* ---------- L9: nothing is swallowed: the EOF segment is empty ---------- *)
 
+Lemma in_rev_cons : forall (x s : seg) acc, In x (rev acc ++ [s]) -> s = x \/ In x acc.
+Proof.
+  intros x s acc H. apply in_app_or in H. destruct H as [H|[H|[]]].
+  - right. apply (proj2 (in_rev _ _)). exact H.
+  - left. exact H.
+Qed.
+
 Lemma read_token_no_loss : forall fuel x start acc segs x',
   sm_inv modes (lx_sm x) ->
   (forall st, start = Some st -> sm_consumed (lx_sm x) = true \/ sm_accum (lx_sm x) = true) ->
@@ -516,26 +523,26 @@ Proof.
     destruct (c =? lexConsume) eqn:E0; [unfold lexConsume in E0; lia|].
     destruct (c =? lexAccept) eqn:E1.
     { injection H as <- <-. cbn [lx_sm]. split; [|exact Hinv'].
-      intros b e Hin. apply in_rev in Hin. destruct Hin as [Hin|Hin]; [discriminate Hin|].
+      intros b e Hin. apply in_rev_cons in Hin. destruct Hin as [Hin|Hin]; [discriminate Hin|].
       apply Hacc. exact Hin. }
     destruct (c =? lexDiscard) eqn:E2.
     { apply (IH _ _ _ _ _) in H; [exact H|exact Hinv'|intros st Hst; discriminate Hst|].
       intros b e [Hin|Hin]; [discriminate Hin|apply Hacc; exact Hin]. }
     destruct (c =? lexTryAgain) eqn:E3; [|unfold lexAccept, lexDiscard, lexTryAgain in *; lia].
     apply (IH _ _ _ _ _) in H; [exact H|exact Hinv'| |exact Hacc].
-    cbn [lx_sm]. intros st _. right. rewrite Ha'. exact E3.
+    cbn [lx_sm]. intros st _. right. rewrite Ha'. reflexivity.
   - (* EOF: only at a token boundary with nothing pending, so the token started here *)
     cbn [Z.eqb lexEOF lexConsume lexAccept lexDiscard lexTryAgain] in H.
     injection H as <- <-. cbn [lx_sm]. split; [|apply Hfull; discriminate].
     destruct start as [st|].
     { destruct (Hstart st eq_refl) as [Hx|Hx]; rewrite Hx in *; discriminate. }
-    intros b e Hin. apply in_rev in Hin. destruct Hin as [Hin|Hin].
+    intros b e Hin. apply in_rev_cons in Hin. destruct Hin as [Hin|Hin].
     + injection Hin as <- <-. reflexivity.
     + apply Hacc. exact Hin.
   - cbn [Z.eqb lexError lexEOF lexConsume lexAccept lexDiscard lexTryAgain] in H.
     rewrite skip_line_eq, lx_consume_eq in H. cbn [lx_sm lx_rest lx_off] in H.
     injection H as <- <-. cbn [lx_sm]. split; [|apply sm_inv_reset; assumption].
-    intros b e Hin. apply in_rev in Hin. destruct Hin as [Hin|Hin]; [discriminate Hin|].
+    intros b e Hin. apply in_rev_cons in Hin. destruct Hin as [Hin|Hin]; [discriminate Hin|].
     apply Hacc. exact Hin.
 Qed.
 
@@ -564,7 +571,7 @@ Theorem lex_no_loss : forall fuel inp segs,
   forall b e, In (SegEOF b e) segs -> b = e.
 Proof.
   intros fuel inp segs H. unfold lex_tables, lex_input in H.
-  apply (lex_all_no_loss fuel _ [] segs); [|intros b e []|exact H].
+  apply (lex_all_no_loss fuel (Build_lexer sm sm_init inp 0) [] segs); [|intros b e []|exact H].
   cbn [lx_sm]. apply sm_inv_init. exact Hwf.
 Qed.
 
@@ -594,6 +601,156 @@ Proof.
 Qed.
 
 End Total.
+
+(* ---------- L9 without any hypothesis on the tables ---------- *)
+
+Lemma run_actions_flags : forall modes fuel mode i e l,
+  match run_actions modes fuel mode i e l with
+  | AReturn c l' => c = lexError \/ c = lexAccept \/ c = lexDiscard \/
+                    (c = lexTryAgain /\ sm_accum l' = true)
+  | AFall l' => sm_consumed l' = sm_consumed l /\ sm_accum l' = sm_accum l
+  | ACrash => True
+  end.
+Proof.
+  intros modes. induction fuel as [|f IH]; intros mode i e l; cbn [run_actions]; [split; reflexivity|].
+  destruct (i <? e); [|split; reflexivity].
+  destruct (nthz mode i) as [ty|]; [|exact I].
+  destruct (nthz mode (i + 1)) as [p|]; [|exact I].
+  destruct (ty =? 1).
+  { destruct ((p <? 0) || (Z.of_nat (length modes) <=? p)); [exact I|].
+    match goal with |- match run_actions _ _ _ _ _ ?l1 with _ => _ end => specialize (IH mode (i + 2) e l1) end.
+    cbn [sm_consumed sm_accum] in IH. exact IH. }
+  destruct (ty =? 2).
+  { destruct (sm_stack l); [left; reflexivity|].
+    match goal with |- match run_actions _ _ _ _ _ ?l1 with _ => _ end => specialize (IH mode (i + 2) e l1) end.
+    cbn [sm_consumed sm_accum] in IH. exact IH. }
+  destruct (ty =? 3); [right; left; reflexivity|].
+  destruct (ty =? 4); [right; right; left; reflexivity|].
+  destruct (ty =? 5); [right; right; right; split; reflexivity|].
+  apply IH.
+Qed.
+
+Lemma push_rune_flags : forall modes l r c l',
+  push_rune modes l r = Some (c, l') ->
+  (c = lexConsume -> sm_consumed l' = true) /\
+  (c = lexTryAgain -> sm_accum l' = true) /\
+  (c = lexEOF -> sm_consumed l = false /\ sm_accum l = false).
+Proof.
+  intros modes l r c l' H. unfold push_rune in H.
+  destruct (nth_error modes (sm_mode l)) as [mode|]; [|discriminate].
+  destruct (nthz mode (sm_state l)) as [i0|]; [|discriminate].
+  destruct (nthz mode i0) as [count|]; [|discriminate].
+  cbv zeta in H.
+  destruct (nthz mode (i0 + 1)) as [flags|]; [|discriminate].
+  destruct (nthz mode (i0 + 1 + 1)) as [goto_n|]; [|discriminate].
+  match type of H with
+  | match ?found with _ => _ end = _ => destruct found as [[t|]|]
+  end; [| |discriminate].
+  { injection H as <- <-. cbn [sm_consumed]. repeat split; try reflexivity; discriminate. }
+  destruct (sm_consumed l) eqn:Ecn; cbn [negb] in H.
+  - pose proof (run_actions_flags modes (S (Z.to_nat count)) mode (i0 + 1 + 2 + goto_n * 3)
+                  (i0 + 1 + count) l) as Hf.
+    destruct (run_actions modes (S (Z.to_nat count)) mode (i0 + 1 + 2 + goto_n * 3) (i0 + 1 + count) l)
+      as [c1 l1|l1|]; [| |discriminate].
+    + injection H as <- <-.
+      destruct Hf as [->|[->|[->|[-> Ha]]]]; repeat split; try discriminate. intros _. exact Ha.
+    + destruct Hf as [Hc _]. rewrite Hc, Ecn in H. cbn [negb andb] in H.
+      injection H as <- <-. repeat split; discriminate.
+  - rewrite Ecn in H. cbn [negb andb] in H.
+    destruct ((r =? -1) && negb (sm_accum l)) eqn:E; injection H as <- <-.
+    + split; [discriminate|]. split; [discriminate|]. intros _. split; [reflexivity|].
+      destruct (sm_accum l); [cbn [negb] in E; lia|reflexivity].
+    + repeat split; discriminate.
+Qed.
+
+Section NoLossAny.
+Variable modes : list (list Z).
+Notation rt := (read_token sm (push_rune modes) sm_token sm_reset).
+Notation la := (lex_all sm (push_rune modes) sm_token sm_reset).
+
+Lemma read_token_no_loss_any : forall fuel x start acc segs x',
+  (forall st, start = Some st -> sm_consumed (lx_sm x) = true \/ sm_accum (lx_sm x) = true) ->
+  (forall b e, In (SegEOF b e) acc -> b = e) ->
+  rt fuel x start acc = RTok sm segs x' ->
+  forall b e, In (SegEOF b e) segs -> b = e.
+Proof.
+  induction fuel as [|f IH]; intros x start acc segs x' Hstart Hacc H; [discriminate|].
+  destruct x as [l rest off]. cbn [lx_sm lx_rest lx_off] in *.
+  cbn [read_token] in H. rewrite lx_char_eq in H. cbn [lx_sm lx_rest lx_off] in H.
+  destruct (push_rune modes l (char_of rest)) as [[c l']|] eqn:Ep; [|discriminate].
+  destruct (push_rune_flags _ _ _ _ _ Ep) as [F0 [F3 F4]].
+  destruct (c =? lexConsume) eqn:E0.
+  { rewrite lx_consume_eq in H.
+    refine (IH _ _ _ _ _ _ Hacc H). cbn [lx_sm].
+    intros st _. left. apply F0. lia. }
+  destruct (c =? lexAccept) eqn:E1.
+  { injection H as <- _. intros b e Hin. apply in_rev_cons in Hin.
+    destruct Hin as [Hin|Hin]; [discriminate Hin|apply Hacc; exact Hin]. }
+  destruct (c =? lexDiscard) eqn:E2.
+  { refine (IH _ _ _ _ _ _ _ H); [intros st Hst; discriminate Hst|].
+    intros b e [Hin|Hin]; [discriminate Hin|apply Hacc; exact Hin]. }
+  destruct (c =? lexTryAgain) eqn:E3.
+  { refine (IH _ _ _ _ _ _ Hacc H). cbn [lx_sm].
+    intros st _. right. apply F3. lia. }
+  destruct (c =? lexEOF) eqn:E4.
+  { injection H as <- _. destruct (F4 ltac:(lia)) as [Hcn Hac].
+    destruct start as [st|].
+    { destruct (Hstart st eq_refl) as [Hx|Hx]; rewrite Hx in *; discriminate. }
+    intros b e Hin. apply in_rev_cons in Hin. destruct Hin as [Hin|Hin].
+    - injection Hin as <- <-. reflexivity.
+    - apply Hacc. exact Hin. }
+  rewrite skip_line_eq, lx_consume_eq in H. cbn [lx_sm lx_rest lx_off] in H.
+  injection H as <- _. intros b e Hin. apply in_rev_cons in Hin.
+  destruct Hin as [Hin|Hin]; [discriminate Hin|apply Hacc; exact Hin].
+Qed.
+
+Lemma lex_all_no_loss_any : forall fuel x acc segs,
+  (forall b e, In (SegEOF b e) acc -> b = e) ->
+  la fuel x acc = LDone segs ->
+  forall b e, In (SegEOF b e) segs -> b = e.
+Proof.
+  induction fuel as [|f IH]; intros x acc segs Hacc H; [discriminate|].
+  cbn [lex_all] in H.
+  destruct (rt (S f) x None []) as [segs1 x'| |] eqn:Er; try discriminate.
+  assert (H1 : forall b e, In (SegEOF b e) segs1 -> b = e).
+  { apply (read_token_no_loss_any (S f) x None [] segs1 x'); [|intros b e []|exact Er].
+    intros st Hst; discriminate Hst. }
+  assert (Hacc' : forall b e, In (SegEOF b e) (acc ++ segs1) -> b = e).
+  { intros b e Hin. apply in_app_or in Hin. destruct Hin as [Hin|Hin]; [apply Hacc|apply H1]; exact Hin. }
+  destruct (existsb is_eof_seg segs1).
+  - injection H as <-. exact Hacc'.
+  - apply (IH x' (acc ++ segs1) segs Hacc' H).
+Qed.
+
+(* whatever the tables and the input: if lexing finishes, every EOF segment is empty *)
+Theorem lex_no_loss_any : forall fuel inp segs,
+  lex_tables modes fuel inp = LDone segs ->
+  forall b e, In (SegEOF b e) segs -> b = e.
+Proof.
+  intros fuel inp segs H. unfold lex_tables, lex_input in H.
+  apply (lex_all_no_loss_any fuel (Build_lexer sm sm_init inp 0) [] segs); [intros b e []|exact H].
+Qed.
+
+(* tables-independent exact tiling *)
+Theorem lex_exact_tiling_any : forall fuel inp segs,
+  (forall r w, In (r, w) inp -> 0 <= r) ->
+  lex_tables modes fuel inp = LDone segs ->
+  exists pre,
+    segs = pre ++ [SegEOF (total_width inp) (total_width inp)] /\
+    Forall noneof pre /\
+    tiles 0 pre (total_width inp).
+Proof.
+  intros fuel inp segs Hinp H.
+  destruct (lex_tiling modes fuel inp segs Hinp H) as [pre [b [Hs [Hpre Ht]]]].
+  assert (Hb : b = total_width inp).
+  { apply (lex_no_loss_any fuel inp segs H). rewrite Hs. apply in_or_app. right. left. reflexivity. }
+  subst b. exists pre. split; [exact Hs|]. split; [exact Hpre|].
+  rewrite Hs in Ht. apply tiles_app_last in Ht. exact Ht.
+Qed.
+
+End NoLossAny.
+Print Assumptions lex_no_loss_any.
+Print Assumptions lex_exact_tiling_any.
 
 (* the statement in the requested form *)
 Corollary lex_total_fuel : forall modes,
